@@ -138,6 +138,8 @@ def run(world, tier, info, only=None):
     # the recorded column is state.col: it must follow the text (resets only after a newline, every write accounted)
     c28.cursor_obligations(ck, w, R8="R2", R9="R2")
     c28.col_units(ck, w, R6="R2", floor=False)
+    # ... and a relative advance (col += chars(text)) only where the text holds no line feed
+    ck.floor("R2", "relative text advances of state.col", c28.relative_advances(ck, "R2", w), 1)
 
     map_written_with_output(ck, w)
     empty_anchor_filter(ck, w)
